@@ -52,6 +52,7 @@ fn main() {
         "file-c01" => { cases.prop = "C01".into(); c_file::generate(&mut cases, &mut rng, thorough, false) }
         "file-c09" => { cases.prop = "C09".into(); c_file::generate(&mut cases, &mut rng, thorough, true) }
         "file-c15" => { cases.prop = "C15".into(); c_file::generate_c15(&mut cases, &mut rng, thorough) }
+        "file-c14" => { cases.prop = "C01".into(); c_file::generate_c14(&mut cases, &mut rng, thorough) }
         "file-c18" => { cases.prop = "C18".into(); c_file::generate_c18(&mut cases, &mut rng, thorough) }
         "hist-c02" => { cases.prop = "C02".into(); c_hist::generate(&mut cases, &mut rng, thorough, "C02") }
         "hist-c03" => { cases.prop = "C03".into(); c_hist::generate(&mut cases, &mut rng, thorough, "C03") }
